@@ -48,7 +48,9 @@ Half == TFloat("half")   Float == TFloat("float")   Double == TFloat("double")  
 P0 == TPtr(I8, 0)   P1 == TPtr(I8, 1)
 V2(t)  == TVec(FALSE, 2, t)
 VS2(t) == TVec(TRUE, 2, t)
+\* the thorough tier adds vectors of length 4
 Lift(ts) == ts \cup {V2(t) : t \in ts} \cup {VS2(t) : t \in ts}
+            \cup (IF Tier = "quick" THEN {} ELSE {TVec(FALSE, 4, t) : t \in ts} \cup {TVec(TRUE, 4, t) : t \in ts})
 
 \* the thorough tier adds two more integer widths and the two remaining floating-point kinds
 IntS == {I1, I8, I64, I129} \cup (IF Tier = "quick" THEN {} ELSE {I16, I32})
